@@ -59,6 +59,12 @@ def run(tier):
     a, b = clocks.sc_replay_edges(chk, exe, edges, phases, mode='scloop')
     nscripts += a
     nsteps += b
+    # the same graph with the clock set through setup() (value taken from the backup clock) and through forceSync() (value
+    # taken from a reference clock): both are documented to set the clock like setNow()
+    for via in ('U', 'F'):
+        a, b = clocks.sc_replay_edges(chk, exe, edges, phases, setvia=via)
+        nscripts += a
+        nsteps += b
     chk.sample({'model_edge': edges[len(edges) // 3]})
     # 4. native sweep of phase x gap pairs against the closed form T + gap div 1000
     if tier == 'quick':
